@@ -457,7 +457,7 @@ func runWindow(t vcore.Failer, c rxwindow.Case, minimise bool) {
 	if minimise && v != nil && !vcore.IsKnown(v.Key) {
 		key := v.Key
 		c.Evs = vcore.MinimizeSlice(c.Evs, func(evs []rxwindow.Ev) bool {
-			x, _ := rxwindow.Run(rxwindow.Case{RetransMs: c.RetransMs, MaxRetrans: c.MaxRetrans, Evs: evs, Many: c.Many, BusyMs: c.BusyMs})
+			x, _ := rxwindow.Run(rxwindow.Case{RetransMs: c.RetransMs, MaxRetrans: c.MaxRetrans, Evs: evs, Many: c.Many, BusyMs: c.BusyMs, Sustain: c.Sustain})
 			return x != nil && x.Key == key
 		}, 12)
 	}
@@ -491,6 +491,7 @@ func TestC06(t *testing.T) {
 			Case
 			Window *rxwindow.Case      `json:"window"`
 			Stale  *rxwindow.StaleCase `json:"stale"`
+			Lost   *rxwindow.LostCase  `json:"lost"`
 		}
 		if err := vcore.LoadReplayCase(f, &w); err != nil {
 			t.Fatalf("replay %s: %v", f, err)
@@ -503,6 +504,12 @@ func TestC06(t *testing.T) {
 		if w.Stale != nil {
 			vcore.E.Class("replayed")
 			runStale(t, *w.Stale)
+			continue
+		}
+		if w.Lost != nil {
+			vcore.E.Eval()
+			vcore.E.Class("replayed")
+			vcore.Report(t, rxwindow.RunLost(*w.Lost), map[string]any{"lost": w.Lost})
 			continue
 		}
 		c := w.Case
@@ -570,6 +577,8 @@ func TestC06(t *testing.T) {
 		}
 	}
 
+	// an answer that could not be sent: the request was executed, its retransmission gets the answer (package rxwindow)
+	rxwindow.LostPart(t)
 	// (b) real retention window (package rxwindow)
 	runWindow(t, rxwindow.Case{RetransMs: 20, MaxRetrans: 1, Evs: []rxwindow.Ev{{Kind: "assoc", Peer: 0, Seq: 77}}, Many: 150, BusyMs: 300}, false)
 	vcore.Check(t, vcore.N(30, 300), func(rt *rapid.T) {
